@@ -88,3 +88,9 @@ package ketoapi
 //@   opt inline-all
 //@   requires onesubject(x)
 //@   ensures[C18] dataprovider-roundtrip: result1 == nil && result0 != nil && result0.Namespace == x.Namespace && result0.Object == x.Object && result0.Relation == x.Relation && sameid(result0.SubjectID, x.SubjectID) && sameset(result0.SubjectSet, x.SubjectSet)
+
+//@ func (*Tree[NodeT]).ToProto
+//@   trusted
+//@   pure
+//@   requires t != nil
+//@   ensures result != nil
